@@ -196,3 +196,61 @@ def flatten_fact(c, truth):
     if c.get("k") == "bin" and c.get("op") == "||" and not truth:
         return flatten_fact(c["lhs"], False) + flatten_fact(c["rhs"], False)
     return [(c, truth)]
+
+
+def eval_loopfree(f, var, values, is_append, max_steps=64):
+    """Exact table of a loop-free single-variable function: for each value of `var` follow the CFG by evaluating the
+    (pure) branch conditions, collecting the operands of the append sites and the returned constant.
+
+    is_append(node) -> operand expression node if `node` appends one byte to the output, else None.
+    Returns a callable value -> (tuple of appended bytes, return value or None).  Raises NotPure when the function
+    does anything else (assignments, loops, calls with effects): the table would not describe it."""
+    plans = {}
+    for b in f.blocks.values():
+        acts = []
+        for e in b.elems:
+            if e.kind != "stmt" or "root" not in e.raw:
+                continue
+            n = e.node
+            k = n.get("k")
+            op = is_append(n)
+            if op is not None:
+                acts.append(("app", compile_expr(op, [var])[0]))
+            elif k == "ret":
+                v = n.get("v")
+                if isinstance(v, dict):
+                    acts.append(("ret", compile_expr(strip_casts(v), [var])[0]))
+                else:
+                    acts.append(("ret", None))
+            elif b.cond is not None and (n is b.cond or n.get("id") == b.cond.get("id")):
+                continue
+            elif k in ("bin", "un", "opcall") and not (k == "bin" and n.get("op") in ("=", "+=", "-=", "|=", "&=", "<<=", ">>=")) and not (k == "un" and "++" in n.get("op", "")) and k != "opcall":
+                continue      # a pure condition fragment
+            else:
+                raise NotPure("%s: statement `%s` is outside the loop-free pure fragment" % (f.name.split("::")[-1], n.get("k")))
+        cond = None
+        if b.cond is not None and len([s for s in b.succs if s is not None]) == 2:
+            cond = compile_expr(strip_casts(b.cond), [var])[0]
+        plans[b.id] = (acts, cond, b.succs)
+
+    def run(v):
+        bid = f.entry
+        out = []
+        for _ in range(max_steps):
+            acts, cond, succs = plans[bid]
+            for a in acts:
+                if a[0] == "app":
+                    out.append(a[1](v) & 0xFF)
+                else:
+                    return tuple(out), (a[1](v) if a[1] is not None else None)
+            if bid == f.exit:
+                return tuple(out), None
+            if cond is not None:
+                bid = succs[0] if cond(v) else succs[1]
+            else:
+                nxt = [s for s in succs if s is not None]
+                if len(nxt) != 1:
+                    raise NotPure("block B%d has %d successors and no pure condition" % (bid, len(nxt)))
+                bid = nxt[0]
+        raise NotPure("%s is not loop-free" % f.name)
+    return run
